@@ -344,14 +344,16 @@ impl<'a> TypstTranslator<'a> {
             Expr::DestructAssign(destruct_assignment) => {
                 recurse!(destruct_assignment.value())
             }
+            // Tokens are produced in the order of the source: `set target(args) if condition`,
+            // `show selector: transform`.
             Expr::Set(set_rule) => merge![
                 recurse!(set_rule.target()),
-                set_rule.condition().and_then(|expr| recurse!(expr)),
-                parse_args(&mut set_rule.args().items())
+                parse_args(&mut set_rule.args().items()),
+                set_rule.condition().and_then(|expr| recurse!(expr))
             ],
             Expr::Show(show_rule) => merge![
-                recurse!(show_rule.transform()),
-                show_rule.selector().and_then(|expr| recurse!(expr))
+                show_rule.selector().and_then(|expr| recurse!(expr)),
+                recurse!(show_rule.transform())
             ],
             Expr::Contextual(contextual) => recurse!(contextual.body()),
             Expr::Conditional(conditional) => merge![
